@@ -10,6 +10,21 @@ class Unsupported(Exception):
     pass
 
 
+def r1_attrs(toks, log):
+    """drop lint / inlining / doc attributes that appear inside signatures and bodies"""
+    out = []
+    i = 0
+    n = len(toks)
+    while i < n:
+        if toks[i] == '#' and i + 2 < n and toks[i + 1] == '[' and toks[i + 2] in ('allow', 'inline', 'doc', 'must_use', 'cold', 'warn', 'deny', 'rustfmt', 'track_caller', 'automatically_derived'):
+            i = match_close(toks, i + 1) + 1
+            log['R1'] = log.get('R1', 0) + 1
+            continue
+        out.append(toks[i])
+        i += 1
+    return out
+
+
 def r2_panics(toks, log):
     out = []
     i = 0
